@@ -29,8 +29,11 @@ T(o) == o.cfg.ka
 
 NoCause(o) == ~o.shut /\ ~o.gone /\ ~o.reset /\ ~o.tfail /\ ~o.cerr /\ ~o.winddown
 AllAppsQuiet(o) == \A a \in DOMAIN o.apps : App(o, a).done \in {"", "return"} /\ App(o, a).sendExc = 0
+\* (an application that ended without its last message abandoned its response: even where the bytes on the wire
+\*  look complete - a HEAD response ends with its head - the connection cannot be kept)
+Abandoned(o, a) == App(o, a).rstart /\ ~App(o, a).final /\ App(o, a).done # ""
 CleanHistory(o) == \A a \in DOMAIN o.reqs : Wire(o, a).ends > 0 =>
-                        (Reusable(o, a) \/ Req(o, a).kind = "badhost" \/ Req(o, a).ver = "2")
+                        ((Reusable(o, a) \/ Req(o, a).kind = "badhost" \/ Req(o, a).ver = "2") /\ ~Abandoned(o, a))
 WsOpen(o) == \E a \in DOMAIN o.apps : App(o, a).kind = "websocket" /\ App(o, a).done = ""
                                         /\ App(o, a).disc = 0 /\ Wire(o, a).heads > 0 /\ Wire(o, a).status \in {101, 200}
                                         /\ Wire(o, a).ends = 0
@@ -48,6 +51,8 @@ Clauses(o, ev, o2, p) ==
                  THEN (IF ev.now < p.idleStart + T(o) THEN <<F("closed-early", p.lastKind)>> ELSE <<>>)
                  ELSE IF ~p.idle /\ CleanHistory(o)
                          /\ \A a \in DOMAIN o.reqs : BusyReq(o, a) => App(o, a).done = ""
+                         \* (a response delimited by the end of the connection is finished by this very close)
+                         /\ \A b \in DOMAIN o.reqs : BusyReq(o, b) => ~(Wire(o, b).framing = "close" /\ App(o, b).final)
                       THEN <<F("closed-while-busy", IF WsOpen(o) THEN "websocket"
                                                     ELSE IF ParkedPipeline(o) THEN "pipelined-request-pending"
                                                     ELSE o.cfg.carrier)>>
